@@ -622,6 +622,14 @@ class Parabola1DGridManifoldInterpolationMethod(
         # Determine the nearest grid point x1.
         x1 = self._p_grid.round_to_nearest_grid_point(x)
 
+        # Broadcast (x-x1) to the values array. This is done before the cache
+        # is consulted or updated, because it validates the number of given
+        # parameter values. Otherwise a call with a wrong number of parameter
+        # values would leave a cache behind, which makes the next valid call
+        # fail.
+        (x_minus_x1,) = tdm.broadcast_sources_arrays_to_values_arrays(
+            (x-x1,))
+
         # Check if the parabola parametrization for x1 is already cached.
         if self._is_cached(tdm.trial_data_state_id, x1):
             M1 = self._cache['M1']
@@ -679,10 +687,6 @@ class Parabola1DGridManifoldInterpolationMethod(
                 M1=M1,
                 a=a,
                 b=b)
-
-        # Broadcast x, x1, and (x-x1) to the values array.
-        (x, x1, x_minus_x1) = tdm.broadcast_sources_arrays_to_values_arrays(
-            (x, x1, x-x1))
 
         # Calculate the interpolated manifold values.
         values = a * x_minus_x1**2 + b * x_minus_x1 + M1
